@@ -6,6 +6,7 @@ import (
 	"fmt"
 	"sort"
 	"strings"
+	"unicode"
 
 	"verifharness/vh"
 )
@@ -569,25 +570,44 @@ func badify(r *vh.Rng, v interface{}, depth int) interface{} {
 	return v
 }
 
-func caseVariant(r *vh.Rng, k string) string {
-	switch r.Pick(4) {
-	case 0:
-		return strings.ToUpper(k)
-	case 1:
-		return strings.ToUpper(k[:1]) + k[1:]
-	case 2:
-		return strings.Replace(k, "k", "\u212a", 1) + "" // Kelvin sign folds to k
+// foldOrbit lists the runes encoding/json treats as equal to c when it matches an object key to a
+// struct field (unicode.SimpleFold orbit), c excluded: 'k' -> K, U+212A; 's' -> S, U+017F; ...
+func foldOrbit(c rune) []rune {
+	var out []rune
+	for x := unicode.SimpleFold(c); x != c; x = unicode.SimpleFold(x) {
+		out = append(out, x)
 	}
-	b := []byte(k)
-	for i := range b {
-		if r.Chance(0.4) && b[i] >= 'a' && b[i] <= 'z' {
-			b[i] -= 32
+	return out
+}
+
+// caseVariants: every spelling of k with exactly one letter replaced by a member of its fold
+// orbit, plus the all-upper spelling.
+func caseVariants(k string) []string {
+	out := []string{strings.ToUpper(k)}
+	rs := []rune(k)
+	for i, c := range rs {
+		for _, x := range foldOrbit(c) {
+			v := append(append([]rune{}, rs[:i]...), x)
+			out = append(out, string(append(v, rs[i+1:]...)))
 		}
 	}
-	if string(b) == k {
-		return strings.ToUpper(k)
+	return out
+}
+
+func caseVariant(r *vh.Rng, k string) string {
+	rs := []rune(k)
+	changed := false
+	for i, c := range rs {
+		if orb := foldOrbit(c); len(orb) > 0 && r.Chance(0.4) {
+			rs[i] = orb[r.Pick(len(orb))]
+			changed = true
+		}
 	}
-	return string(b)
+	if !changed {
+		vs := caseVariants(k)
+		return vs[r.Pick(len(vs))]
+	}
+	return string(rs)
 }
 
 // dupKeyMutation adds a second member that json.Unmarshal decodes into the same struct field as an
@@ -622,6 +642,13 @@ func dupKeyMutation(r *vh.Rng, root *interface{}) string {
 	}
 	c := cs[r.Pick(len(cs))]
 	bad := badify(r, clone(c.obj[c.key]), 0)
+	if c.top && c.key == "transform_declarations" && r.Chance(0.6) {
+		payloads := []string{`{"FINAL_OUTPUT":{"object":{"a":{"template":"t"}}},"t":null}`, `{"FINAL_OUTPUT":null}`, `{"FINAL_OUTPUT":{"template":"t"},"t":null}`,
+			`{"FINAL_OUTPUT":{"object":{"a":null}}}`, `{"FINAL_OUTPUT":{"array":[null]}}`, `{"FINAL_OUTPUT":{"custom_func":{"name":"concat","args":[null]}}}`,
+			`{"FINAL_OUTPUT":{"custom_func":{"args":[]}}}`, `{"FINAL_OUTPUT":{"custom_func":null,"xpath":"a"}}`, `{"t":null}`, `{"FINAL_OUTPUT":{"object":{"a":{"template":"FINAL_OUTPUT"}}}}`,
+			`{"FINAL_OUTPUT":{"xpath":"[","object":{}}}`, `{"FINAL_OUTPUT":{"object":{"a":{"xpath":"a","type":"bogus"}}}}`, `null`, `[]`, `"x"`}
+		bad, _ = parseJSON([]byte(payloads[r.Pick(len(payloads))]))
+	}
 	where := "nested"
 	if c.top {
 		where = "root"
